@@ -389,7 +389,7 @@ var _ = reflect.TypeOf
 // c05FoldBytes: bytes outside the 27-symbol alphabet (they occur in c05.bytes256 only) are folded
 // into three classes, so that one cause does not get a class per byte value: the control
 // characters encoding/json spells \a \b \f \v and DEL, and the punctuation that has no role in JSON.
-var reFoldQuoted = regexp.MustCompile(`'(\\[abfv]|\x7f|[!#$%&()*/;<=>?@^_` + "`" + `|~])'`)
+var reFoldQuoted = regexp.MustCompile(`'(\\[abfv]|\x7f|[!#$%&()*;<=>?@^_` + "`" + `|~])'`)
 
 func c05FoldBytes(cls string) string {
 	return reFoldQuoted.ReplaceAllStringFunc(cls, func(m string) string {
